@@ -199,6 +199,8 @@ def run(chk: Check, model):
     if len(calls) != 1 or not calls[0].loops:
         raise AnalysisError("connect_from_info does not call self.connect once per info")
     c = calls[0]
+    chk.add("C16.info", "connect_from_info connects every given input", c.guard == T.TRUE, f"self.connect is called under {T.show(c.guard)[:160]}: an input that is skipped keeps whatever "
+            "edge (delay, distribution, window, ...) the node had before, not the one of the info", chk.loc(fi, c.node))
     lp = r.loops[c.loops[0]]
     info_t = None
     kw = dict(c.kwargs)
